@@ -55,13 +55,15 @@ def frames(case):
     return base, feed
 
 
-def run_case(case, client_obj=None, extra_kwargs=None, want_client=False, omit_model_parameters=False, base_frame=None):
+def run_case(case, client_obj=None, extra_kwargs=None, want_client=False, omit_model_parameters=False, base_frame=None, feed_frame=None, preprocessed_none=False):
     """returns dict: {'ok': bool, 'tables': {name: DataFrame}, 'exc': (type name, msg)}
 
     base_frame: pass this very DataFrame object as preprocessed_data (a caller that keeps one baseline frame across polls)
     instead of a fresh copy built from case['baseline']"""
     client = _imp()
     base, feed = frames(case)
+    if feed_frame is not None:
+        feed = feed_frame
     p = case["params"]
     mc = client_obj or client.ModelClient()
     kwargs = dict(
@@ -88,7 +90,7 @@ def run_case(case, client_obj=None, extra_kwargs=None, want_client=False, omit_m
             percent_reporting_threshold=p["percent_reporting_threshold"],
             geographic_unit_type=case["unit_type"],
             raw_config=gen.make_config(case),
-            preprocessed_data=(base_frame if base_frame is not None else base.copy()),
+            preprocessed_data=(None if preprocessed_none else (base_frame if base_frame is not None else base.copy())),
             **({} if omit_model_parameters else {"model_parameters": dict(p.get("model_parameters", {}))}),
             **kwargs,
         )
@@ -106,14 +108,17 @@ def run_case(case, client_obj=None, extra_kwargs=None, want_client=False, omit_m
     return out
 
 
-def get_units(case):
-    """CombinedDataHandler.get_units on a case -> (reporting, nonreporting, unexpected) frames"""
+def get_units(case, feed_frame=None):
+    """CombinedDataHandler.get_units on a case -> (reporting, nonreporting, unexpected) frames
+    feed_frame: pass this very DataFrame object as the live feed (a caller that keeps one feed frame and updates it in place)"""
     _imp()
     from elexmodel.handlers.config import ConfigHandler
     from elexmodel.handlers.data.CombinedData import CombinedDataHandler
     from elexmodel.handlers.data.PreprocessedData import PreprocessedDataHandler
 
     base, feed = frames(case)
+    if feed_frame is not None:
+        feed = feed_frame
     p = case["params"]
     cfg = ConfigHandler(gen.ELECTION_ID, config=gen.make_config(case))
     eb = cfg.get_estimand_baselines(case["office"], p["estimands"])
